@@ -3,10 +3,11 @@ import CotengraVerif.Model.Reuse
 import CotengraVerif.Model.ReuseNest
 import CotengraVerif.Model.ReusePool
 import CotengraVerif.Model.ReuseIface
+import CotengraVerif.Model.ReuseShared
 
 namespace Cotengra.Driver.C16
 open Lean Cotengra Cotengra.Driver Cotengra.Hyper Cotengra.Reuse
-open Cotengra.ReuseNest Cotengra.ReusePool Cotengra.ReuseIface
+open Cotengra.ReuseNest Cotengra.ReusePool Cotengra.ReuseIface Cotengra.ReuseShared
 
 def scoreOf (j : Json) : Except String Score :=
   match j with
@@ -304,7 +305,92 @@ def iface : Handler := fun j => do
     jArr [jNat nn, jNat p, jBool (s.cache (cfg.keyOf { net := nn, preset := p })).isSome]
   pure (jObj [("threads", jArr outs), ("cached", jArr cached), ("mismatch", mism)])
 
+/-! ### object identity of the sub-optimizer: `c16.srun` -/
+
+def spcName : SPC → String
+  | .idle => "idle" | .hashed _ _ => "hashed" | .searching _ _ _ _ => "searching" | .ran _ _ _ => "ran"
+  | .stored _ _ _ => "stored" | .compare _ _ _ => "compare" | .have _ _ _ => "have"
+
+/-- the shared access a step ended with, read off the program points before and after it -/
+def slabel (before after : SThread) : String :=
+  if after.results.length > before.results.length then "end"
+  else match after.pc with
+    | .hashed _ _ => "hash"
+    | .ran _ _ _ => "search"
+    | .stored _ _ _ => "store"
+    | .compare _ _ _ => "cacheGet"
+    | .have _ _ _ => (match before.pc with | .hashed _ _ => "cacheGet" | _ => "cacheSet")
+    | _ => ""
+
+def squiescent (s : SSys) (t : Nat) : Bool :=
+  (match (s.threads t).pc with | .idle => true | _ => false) && (s.threads t).queue.isEmpty
+
+/-- thread `t` steps (through `ReuseShared.sstep`) until a labelled step; also returns the
+    references of the sub-optimizer objects handed out on the way -/
+def srunSegment (cfg : SCfg) (t : Nat) : Nat → SSys → List Nat → SSys × String × List Nat
+  | 0, s, refs => (s, "out-of-fuel", refs)
+  | fuel + 1, s, refs =>
+    if squiescent s t then (s, "quiescent", refs)
+    else
+      let s1 := sstep cfg s t
+      let refs1 := match (s.threads t).pc, (s1.threads t).pc with
+        | .hashed _ _, .searching _ _ r _ => refs ++ [r]
+        | _, _ => refs
+      let l := slabel (s.threads t) (s1.threads t)
+      if l == "" then
+        -- a blocked thread (lock taken) does not move: give up the segment
+        if spcName (s1.threads t).pc == "hashed" && spcName (s.threads t).pc == "hashed" then (s1, "blocked", refs1)
+        else srunSegment cfg t fuel s1 refs1
+      else (s1, l, refs1)
+
+/-- op `c16.srun`: `policy`: "fresh" | "shared"; `overwrite`, `cache_only`; `queues`: per thread
+    [[net, key, hard]]; `trials`: per thread, per sub-search, list of scores; `segments`:
+    [[thread, label]].  Returns per thread results / nsearch / pc, the references of the
+    sub-optimizer objects in the order they were handed out, cached keys. -/
+def srunOp : Handler := fun j => do
+  let policy ← match ← (fieldD j "policy" (jStr "fresh")).getStr? with
+    | "fresh" => pure Policy.fresh
+    | "shared" => pure Policy.shared
+    | s => throw s!"unknown policy {s}"
+  let ov ← overwriteOf (← (fieldD j "overwrite" (jStr "no")).getStr?)
+  let cacheOnly ← (fieldD j "cache_only" (Json.bool false)).getBool?
+  let queues ← (← arrOf (← field j "queues")).mapM fun qs => do
+    (← arrOf qs).mapM fun q => do
+      match ← arrOf q with
+      | [n, k, h] => pure ({ net := ← natOf n, key := ← natOf k, hard := ← h.getBool? } : Query)
+      | _ => throw "query must be [net, key, hard]"
+  let trials ← (← arrOf (← field j "trials")).mapM fun per => do
+    (← arrOf per).mapM fun log => do
+      (← arrOf log).mapM fun sc => do
+        pure ((⟨0, 0⟩ : Setting), trialOfScore (← scoreOf sc))
+  let segs ← (← arrOf (fieldD j "segments" (jArr []))).mapM fun p => do
+    match ← arrOf p with
+    | [t, l] => pure (← natOf t, ← l.getStr?)
+    | _ => throw "segment must be [thread, label]"
+  let cfg : SCfg := { policy := policy, overwrite := ov, cacheOnly := cacheOnly,
+                      trials := fun t i => ((trials.getD t []).getD i []) }
+  let mut s := SSys.start fun t => queues.getD t []
+  let mut refs : List Nat := []
+  let mut mism : Json := Json.null
+  let mut i := 0
+  for (t, lab) in segs do
+    if mism == Json.null then
+      let (s1, got, refs1) := srunSegment cfg t 64 s refs
+      s := s1
+      refs := refs1
+      if got != lab then
+        mism := jObj [("segment", jNat i), ("expected", jStr lab), ("got", jStr got)]
+    i := i + 1
+  let n := queues.length
+  let outs := (List.range n).map fun t =>
+    let th := s.threads t
+    let keys := ((queues.getD t []).map (·.key)).eraseDups
+    jObj [("results", jArr (th.results.map fun (q, r) => jArr [jNat q.net, jOptNat r])),
+          ("nsearch", jNat th.nsearch), ("pc", jStr (spcName th.pc)), ("left", jNat th.queue.length),
+          ("cached", jArr (keys.map fun k => jArr [jNat k, jBool (s.obj.cache k).isSome]))]
+  pure (jObj [("threads", jArr outs), ("refs", jNats refs), ("mismatch", mism)])
+
 def handlers : List (String × Handler) :=
-  [("c16.run", run), ("c16.nrun", nrun), ("c16.pool", pool), ("c16.iface", iface)]
+  [("c16.run", run), ("c16.nrun", nrun), ("c16.pool", pool), ("c16.iface", iface), ("c16.srun", srunOp)]
 
 end Cotengra.Driver.C16
